@@ -10,12 +10,15 @@ from gv.oracle import val
 
 ID = "C10"
 LEVEL = "exploration"
-RULE = ("pairs of JSON-like / BasicBuilder / plist / PyObj documents with renamed keys and shifted lists, nesting >= 3, x all 9 "
+RULE = ("pairs of JSON-like / BasicBuilder / plist / PyObj documents and of data files loaded by the real JSON / JSON5 / YAML / pickle "
+        "loaders in their dialects (YAML anchors+aliases and multi-document streams, pickles with shared objects) with renamed keys and shifted lists, nesting >= 3, x all 9 "
         "combinations of {auto,match,none} x {list edits on,off,off-when-same-length}; non-trivial = the script contains a mapping "
         "edit with a key present on both sides or a list edit with positional restriction in force; distinct = distinct case")
 ASSUMPTIONS = ["XML child sequences and CSV rows are not 'lists' in the README's sense (their builders never receive the list "
                "options): recorded, not judged",
-               "a list edit is judged only when both nodes are plain ListNode instances"]
+               "a list edit is judged only when both nodes are plain ListNode instances",
+               "the target list of the `result = ...` assignment and the name list of an import, which the pickle loader's Python-AST "
+               "wrapper creates around the data, are structure of the wrapper and not lists of the document: not judged"]
 MINIMUMS = {"quick": {"mapping_edits_none": 1000, "mapping_edits_auto": 1000, "list_edits_positional": 2000, "builder_nodes_checked": 50000},
             "thorough": {"mapping_edits_none": 30000, "mapping_edits_auto": 30000, "list_edits_positional": 60000,
                          "builder_nodes_checked": 1000000}}
@@ -32,8 +35,9 @@ def plan(tier, seed):
             specs.append({"stratum": "json-large-documents", "family": "json", "n": 150, "k": k, "clean": True, "profile": "large",
                           "case_timeout": 120})
     per_f = 300 if q else 6000
-    for fam in ["basic", "plist", "pyobj", "xml", "csv"]:
-        specs.append({"stratum": f"family-{fam}", "family": fam, "n": per_f, "k": 0, "clean": True, "all_options": fam in ("basic",)})
+    for fam in ["basic", "plist", "pyobj", "xml", "csv", "file"]:
+        specs.append({"stratum": f"family-{fam}", "family": fam, "n": per_f if fam != "file" else per_f // 3, "k": 0, "clean": True,
+                      "all_options": fam in ("basic", "file")})
     nsh = 4 if q else 8
     for k in range(nsh):
         specs.append({"stratum": "exhaustive-tiny", "exhaustive": True, "k": k, "of": nsh, "clean": True,
@@ -44,6 +48,13 @@ def plan(tier, seed):
 def gen_cases(spec, ctx):
     from gv.props import c01
     yield from c01.gen_cases(spec, ctx)
+
+
+def _structural(node):
+    """Lists that are part of the Python-AST wrapper a pickle is loaded into (the targets of `result = ...`, the names of an
+    import), not lists of the document."""
+    from graphtage import pydiff
+    return isinstance(node.parent, (pydiff.Assignment, pydiff.Import))
 
 
 def _plumbing(tree, ds, le, ctx, diags, which):
@@ -63,6 +74,8 @@ def _plumbing(tree, ds, le, ctx, diags, which):
                               "auto_match_keys": getattr(node, "auto_match_keys", None)})
                 return n
         elif type(node) is graphtage.ListNode:
+            if _structural(node):
+                continue
             if node.allow_list_edits != (le != "off") or node.allow_list_edits_when_same_length != (le != "same"):
                 diags.append({"kind": "builder-ignored-list-option", "tree": which,
                               "flags": [node.allow_list_edits, node.allow_list_edits_when_same_length]})
@@ -79,7 +92,7 @@ def check(case, ctx):
     nontrivial = False
     try:
         ta, tb = families.build(case)
-        if case["family"] in ("json", "basic", "plist", "pyobj"):
+        if case["family"] in ("json", "basic", "plist", "pyobj", "file"):
             n = _plumbing(ta, ds, le, ctx, diags, "first") + _plumbing(tb, ds, le, ctx, diags, "second")
             if ctx is not None:
                 ctx.count("builder_nodes_checked", n)
@@ -120,7 +133,7 @@ def check(case, ctx):
                 else:
                     if ctx is not None:
                         ctx.count("mapping_edits_match")
-            elif type(f) is graphtage.ListNode and type(t) is graphtage.ListNode:
+            elif type(f) is graphtage.ListNode and type(t) is graphtage.ListNode and not _structural(f):
                 positional = (not f.allow_list_edits) or (len(f) == len(t) and not f.allow_list_edits_when_same_length)
                 if positional:
                     nontrivial = True
